@@ -163,6 +163,17 @@ def run(ctx):
                             used_tags.add(r.tag.full_name)
                             logixreq.attach_value(r, rng)
                         items.append(r)
+                if for_write and rng.random() < 0.35:
+                    # the same bit write more than once in one call (a caller's list with duplicates, a retry appended to the batch):
+                    # every occurrence is a valid request of its own and gets its own, truthy, Tag
+                    bits_ = [r for r in items if not isinstance(r, Bad) and r.kind == "bit"]
+                    if bits_:
+                        import copy as _cp
+                        r0 = rng.choice(bits_)
+                        for _ in range(rng.choice([1, 1, 2])):
+                            items.insert(rng.randrange(len(items) + 1), _cp.copy(r0))
+                        n = len(items)
+                        res.count("write-calls-repeating-a-bit-write")
                 forced = {getattr(b, "tagname", None): b for b in items if isinstance(b, Bad) and b.cls == "forced-status"}
                 forced_names = set(forced) - {None}
                 # a forced controller error must not hit a tag that a VALID request of the same call also addresses
